@@ -5,6 +5,8 @@ from checks import keyspace_model
 ASSUMPTIONS = [
     "crash points: after every request, and inside every single set/delete request between the storage write and the in-memory update "
     "(the storage call parks after the inner write, the node's tasks are abandoned, a new KeyspaceGroup runs load_states_from_storage on the same storage)",
+    "start-up under storage read errors: after every request the node is also started once with a failing keyspace-list read and once with a failing "
+    "metadata scan; the start must be refused, or what it built must be what storage holds (then the clean start follows)",
     "storage backend for the crash replay is MemStore (the persistent backends' reopen fidelity is C17's subject)",
     "'visible' = the key holds the acknowledged operation or a newer one; an acknowledged delete (and what it superseded) may have been purged",
     "convergence of the restarted node with its peers is covered by the Cluster model (C01), not here",
